@@ -78,7 +78,7 @@ func TestC04(t *testing.T) {
 		return
 	}
 	g := cfg()
-	vcore.Check(t, vcore.N(400, 3000), func(rt *rapid.T) {
+	vcore.Check(t, vcore.N(1500, 4000), func(rt *rapid.T) {
 		c := sessmodel.Case{Ops: sessmodel.Gen(rt, g)}
 		r := sessmodel.Run(c, or)
 		account(c, r)
